@@ -29,6 +29,8 @@ def gen_mixed_network(rng, nmax):
     two topologies (the per-topology pairing of the two corners of a proposal is then exercised)"""
     kinds = rng.sample(list(MIXED), rng.randint(1, 2))
     plain = rng.sample(["2-clique", "3-clique"], rng.randint(0, 2))
+    if rng.random() < 0.5:
+        plain = []                   # only mixed-topology motifs: every proposal then pairs corners of two topologies
     names = []
     for k in kinds:
         for _, _, nm in MIXED[k][1]:
@@ -41,7 +43,7 @@ def gen_mixed_network(rng, nmax):
     jd = [[0] * len(names) for _ in range(N)]
     todo = [(k, MIXED[k][0], MIXED[k][1]) for k in kinds] + [(p, SHAPES[p][0], [(a, b, p) for a, b in SHAPES[p][1]]) for p in plain]
     for kind, size, pat in todo:
-        want, placed = rng.randint(3, 7), 0
+        want, placed = rng.randint(4, 9), 0
         for _ in range(want * 15):
             if placed >= want:
                 break
@@ -244,6 +246,8 @@ class MCMCProp(Prop):
         if i % 2 == 1:
             c["node_order"] = [v for v, _ in c["jd"]]
             rng.shuffle(c["node_order"])   # a vertex's id is not its position in G.nodes()
+        if i % 4 == 2:
+            c["warm_rewire"] = True
         return c
 
     def gen_dense(self, rng, i, tier):
@@ -328,6 +332,38 @@ class MCMCProp(Prop):
             return {"exc": type(e).__name__, "msg": "constructor: " + str(e)[:200], "where": []}
         obs["limits_used"] = [mc.convergence_limit if isinstance(mc.convergence_limit, int) else repr(mc.convergence_limit), mc.search_limit]
         final = None
+        if case.get("warm_rewire"):
+            # the same object rewired once before (a short run whose result is thrown away): each call starts from a fresh copy
+            # of the network, so this must not influence the observed run
+            keep = mc.convergence_limit
+            wprng = _random.Random(case["rseed"] ^ 0x5A5A)
+            wbudget = {"n": 0}
+
+            class W(SemanticRandom):
+                def on_uniform(self, n, ctx):
+                    wbudget["n"] += 1
+                    if wbudget["n"] > 3000:
+                        raise ScriptExhausted()
+                    return wprng.randrange(n)
+
+                def on_float(self, ctx):
+                    wbudget["n"] += 1
+                    if wbudget["n"] > 3000:
+                        raise ScriptExhausted()
+                    if ctx["file"] == "draw_set.py":
+                        n = len(ctx["self"])
+                        return (wprng.randrange(n) + 0.5) / n if n else 0.0
+                    return wprng.random()
+            try:
+                mc.convergence_limit = 2
+                with installed(W()):
+                    mc.rewire()
+            except ScriptExhausted:
+                pass
+            except mod.ErrorMarkovChainMonteCarloRewiring:
+                pass
+            finally:
+                mc.convergence_limit = keep
         import contextlib
         hook = hasattr(mod.MarkovChainMonteCarloRewiring, "swap_condition")   # where proposals are observed
         obs["hook_missing"] = not hook
